@@ -1271,6 +1271,15 @@ func (db *DB) Repair(of Object) (err error) {
 		return
 	}
 
+	// we de-index missing objects first: the unique values they hold must
+	// be free before we index files which may legitimately re-use them
+	for uuid := range s.ObjectIndex.uuids {
+		if !uuids[uuid] {
+			// if object is not on disk and is in index
+			s.unindexByUUID(uuid)
+		}
+	}
+
 	// we re-index missing uuids
 	for uuid := range uuids {
 		// we don't re-index already indexed objects
@@ -1284,14 +1293,6 @@ func (db *DB) Repair(of Object) (err error) {
 
 		if err = s.index(o); err != nil {
 			return
-		}
-	}
-
-	// we de-index missing objects
-	for uuid := range s.ObjectIndex.uuids {
-		if !uuids[uuid] {
-			// if object is not on disk and is in index
-			s.unindexByUUID(uuid)
 		}
 	}
 
